@@ -2,6 +2,8 @@ package main
 
 import (
 	"flag"
+	"os"
+	"runtime/debug"
 	"fmt"
 	"strings"
 	"time"
@@ -36,6 +38,9 @@ func cmdSweep(args []string) int {
 			defer func() {
 				if x := recover(); x != nil {
 					r.EncErr = fmt.Sprint(x)
+					if os.Getenv("GOVC_DEBUG") != "" {
+						fmt.Println(string(debug.Stack()))
+					}
 				}
 			}()
 			r.Enc.run()
